@@ -128,7 +128,7 @@ def gen_reactions(fmt, rnd, n):
     maxr = {"umist": 2, "uclchem": 3}.get(fmt, 3)
     maxp = {"umist": 4, "uclchem": 4, "krome": 4}.get(fmt, 5)
     codes = {"kida": [1, 2, 3, 4, 5], "umist": list(__import__("contracts.laws_gas", fromlist=["x"]).UMIST_TYPES),
-             "leeds": [1, 2, 3, 4, 5, 11, 12], "uclchem": ["MA", "CRP", "PHOTON", "CRPHOT"], "krome": [0],
+             "leeds": [1, 2, 3, 4, 5, 11, 12], "uclchem": ["MA", "CRP", "PHOTON", "CRPHOT", "FREEZE", "DESOH2", "DESCR", "DEUVCR", "THERM"], "krome": [0],
              "naunet": [100, 101, 102, 110, 111, 120]}[fmt]
     for k in range(n):
         code = codes[k % len(codes)]
@@ -151,6 +151,9 @@ def gen_reactions(fmt, rnd, n):
         ps = [rnd.choice(src) for _ in range(np__)]
         if k % 5 == 0 and rs:
             rs[-1] = rs[0]              # repeated reactant
+        if fmt == "uclchem" and code in ("FREEZE", "DESOH2", "DESCR", "DEUVCR", "THERM"):
+            gas = rnd.choice(["CO", "H2O", "CH3OH", "HCO+"] if code == "FREEZE" else ["CO", "H2O", "CH3OH"])
+            rs, ps = ([gas], ["#" + gas.rstrip("+")]) if code == "FREEZE" else (["#" + gas], [gas])
         a = rnd.choice([1.0e-10, -2.5e-9, 3.33e-17, 9.99e+3, 1.0])
         b = rnd.choice([0.0, -0.5, 0.5, 2.0, -1.5])
         c = rnd.choice([0.0, 30450.0, -12.5, 1.0e4, 7.5])
